@@ -79,10 +79,7 @@ def make_data(rng, d=None, n_classes=None, n_per_class=None, n_tuples=None, sep=
   yreg = grid(X.dot(rng.standard_normal(d)) + 0.1 * rng.standard_normal(n))
   return dict(X=X, y=y, yreg=yreg, d=d, n=n, n_classes=n_classes,
               pairs_idx=pidx, ypairs=ypairs, trip_idx=np.array(trip), quad_idx=np.array(quad),
-              chunks=chunks,
-              # for the chunk learner called directly: half of the data sets are passed without their unchunked points
-              # (decided by the data, so that the generator's stream is the same as before)
-              all_chunked=bool(int(abs(X[0, 0]) * 1024) % 2 == 0))
+              chunks=chunks)
 
 
 def encode_labels(rng, data):
@@ -146,7 +143,7 @@ def _fit_args(name, data):
   if k == 'reg':
     return (X, data['yreg'])
   if k == 'chunks':
-    if data.get('all_chunked') and name == 'RCA':
+    if data.get('all_chunked') and name == 'RCA':     # opt-in (C17): RCA called without its unchunked points
       keep = data['chunks'] >= 0
       return (np.ascontiguousarray(X[keep]), data['chunks'][keep])
     return (X, data['chunks'])
